@@ -78,6 +78,14 @@ def expectedWorkerSkeleton : List String :=
    "if{",
    "continue",
    "}",
+   "for{",                     -- per-field conversion loop of one line (local computation; since the JSON datasource
+   "if{",                      -- reports values that do not match the inferred type as that line's error)
+   "break",
+   "}",
+   "}",
+   "if{",
+   "continue",
+   "}",
    "}",
    "select{",
    "case send job.outChan",   -- wSend  (worker_never_blocks)
